@@ -37,6 +37,8 @@ Check C01_open_report_keeps_tracked : forall (s : orders) (sn : osnap) (m : meta
 Check C01_overfilled_stays_tracked : forall (s : orders) (sn : osnap) (m : meta),
   o_state sn = SA (Open m) -> m_filled m > o_qty sn ->
   step s (Snap sn) (k_cid (o_key sn)) <> None.
+Check C01_persist_invariant : forall (xs : list xop) (s : orders),
+  fold_left xstep xs s = run (ops_of xs) s.
 Check C01_oracle_sound : forall c : case, corr_b c = true -> prop_b c = true.
 
 (* the definitions the statements rest on, pinned by evaluation *)
